@@ -40,10 +40,11 @@ character can start a pattern. -/
 def hasLambdaFrom : Option Char → List Char → Bool
   | _, [] => false
   | prev, c :: rest =>
-    if c == '\\' then
+    if c == '\\' || c == '&' then
       let next := (rest.dropWhile (· == ' ')).head?
       let startsPattern := match next with
-        | some n => n.isAlpha || n == '_' || n == '(' || n == '[' || n == '{' || n == '.' || n == '$' || n == '@'
+        | some n => n.isAlphanum || n == '_' || n == '(' || n == '[' || n == '{' || n == '.' || n == '$' || n == '@'
+                    || n == '\'' || n == '"' || n == '%' || n == '<' || n == '-'
         | none => false
       let afterOperand := match prev with
         | some q => isOperandEnd q
@@ -58,8 +59,21 @@ def hasStdRef : List Char → Bool
   | _ :: rest => hasStdRef rest
   | [] => false
 
-/-- the text contains a function value (a λ or a standard-library reference) -/
-def mentionsFn (s : String) : Bool := hasLambdaFrom none s.toList || hasStdRef s.toList
+def replaceAll (s pat by_ : String) : String := by_.intercalate (s.splitOn pat)
+
+/-- the subset operators end in `)` although no operand ends there -/
+def maskSubsetOps (s : String) : String :=
+  ["(<>=)", "(<>)", "(<=)", "(>=)", "(<)", "(>)"].foldl (fun acc op => replaceAll acc op "~") s
+
+/-- a keyword operator before `\\` does not end an operand either (`s orderby \\x …`) -/
+def maskKeywords (s : String) : String :=
+  ["orderby", "order", "rank", "where", "sum", "max", "mean", "median", "min", "filter", "with", "without", "if", "else",
+   "nest", "unnest", "count", "single", "cond", "let", "rec"].foldl
+    (fun acc kw => replaceAll acc (" " ++ kw ++ " ") " ~ ") s
+
+/-- the text contains a function value: a λ, a nullary function `&x`, or a standard-library reference -/
+def mentionsFn (s : String) : Bool :=
+  hasLambdaFrom none (maskKeywords (" " ++ maskSubsetOps s)).toList || hasStdRef s.toList
 
 /-- `...` whose innermost enclosing bracket is `{`: a set (or dict) pattern with a rest element -/
 def restInBraces : List Char → List Char → Bool
@@ -108,7 +122,7 @@ def classifyText (s : String) : String :=
   match pinnedClass s with
   | some c => c
   | none =>
-    if hasSub s "//grammar" then "KF-grammar-parse"
+    if hasSub s "//grammar" || hasSub s "{:" then "KF-grammar-parse"
     else if mentionsFn s then "KF-function-as-set"
     else "good"
 
@@ -332,7 +346,8 @@ def genLibCall : Gen (String × String × String) := do
     | some c => c
     | none =>
       if path == "//grammar.parse" then "KF-grammar-parse"
-      else if used.any mentionsFn then "KF-function-as-set"
+      -- the fixed-point combinators hand a function to their argument, whatever it is
+      else if path == "//fn.fix" || path == "//fn.fixt" || used.any mentionsFn then "KF-function-as-set"
       else "good"
   pure (call, (if core then "lib/" else "lib-ext/") ++ path, cls)
 
